@@ -180,7 +180,7 @@ func TestC06Matrix(t *testing.T) {
 	col := stats.New("C06")
 	col.Sub = "matrix"
 	defer finish(t, col)
-	col.Rule = "matrix: {NMI, maskable} x IM{0,1,2} x IFF1 x IFF2 x {running, parked on HALT} enumerated completely, x data shapes (mode 0: RST p for all 8 p, CALL nn, NOP, INC B, LD A,n and one of ED 4A / ED 52 / DD 09 / FD 23 / CB xx / ED 44 / DD 21 nn / 09 / 2F; " +
+	col.Rule = "matrix: {NMI, maskable} x IM{0,1,2} x IFF1 x IFF2 x {running, parked on HALT} enumerated completely, x data shapes (mode 0: RST p for all 8 p, CALL nn, NOP, INC B, LD A,n one of ED 4A / ED 52 / DD 09 / FD 23 / CB xx / ED 44 / DD 21 nn / 09 / 2F and one memory-operand instruction (ADD A,(HL), INC (HL), LD A,(HL), LD (HL),A, ADD A,(IX+d), RLC (HL), LD (HL),n, LD A,(nn), LD (nn),A, PUSH AF, DEC (IY+d), CP (HL)), half of them with the operand a whole number of pages away from PC; " +
 		"mode 1: empty and junk data; mode 2: all 128 even vectors) x rapid-drawn I, PC, SP (edges, wrap), registers and memory; one Step each, compared with the interrupt model " +
 		"(push, vector fetch, IFF1/IFF2, request consumed or kept, no program instruction on acceptance, program instruction on refusal); non-trivial = request accepted; distinct by hash(controls, data, state)"
 	rig := newLockRig()
@@ -234,6 +234,9 @@ func TestC06Matrix(t *testing.T) {
 				shapes = append(shapes, []int{0xCD, int(d.ops[1]), int(d.ops[2])}, []int{0x00}, []int{0x04}, []int{0x3E, int(d.ops[0])})
 				// prefixed instructions (every byte comes from the device)
 				shapes = append(shapes, [][]int{{0xED, 0x4A}, {0xED, 0x52}, {0xDD, 0x09}, {0xFD, 0x23}, {0xCB, 0x00 | int(d.ops[0])&0x3F}, {0xED, 0x44}, {0xDD, 0x21, int(d.ops[1]), int(d.ops[2])}, {0x09}, {0x2F}}[int(d.memSeed>>32)%9])
+				// instructions with a memory operand
+				shapes = append(shapes, [][]int{{0x86}, {0x34}, {0x7E}, {0x77}, {0xDD, 0x86, int(d.ops[0])}, {0xCB, 0x06}, {0x36, int(d.ops[1])}, {0x3A, int(d.ops[1]), int(d.ops[2])},
+					{0x32, int(d.ops[1]), int(d.ops[2])}, {0xF5}, {0xFD, 0x35, int(d.ops[0])}, {0xBE}}[int(d.memSeed>>36)%12])
 			case st.IM == 1:
 				shapes = [][]int{nil, {int(d.ops[0]), int(d.ops[1])}}
 			default:
@@ -246,7 +249,14 @@ func TestC06Matrix(t *testing.T) {
 				if nmi {
 					ev = c06Event{Kind: "nmi"}
 				}
-				c := c06Case{St: st, MemSeed: d.memSeed, Fill: d.fill, Parked: parked,
+				cst := st
+				if st.IM == 0 && !nmi && si == len(shapes)-1 && d.memSeed>>41&1 == 0 {
+					// the operand lies a whole number of pages away from PC (or right on it)
+					hl := st.PC + uint16(d.memSeed>>42&3)<<8 + uint16(d.memSeed>>44&1)
+					cst.H, cst.L = uint8(hl>>8), uint8(hl)
+					cst.IX, cst.IY = hl-uint16(int16(int8(d.ops[0]))), hl-uint16(int16(int8(d.ops[0])))
+				}
+				c := c06Case{St: cst, MemSeed: d.memSeed, Fill: d.fill, Parked: parked,
 					Events: []c06Event{ev, {Kind: "step", Code: prog}}}
 				if parked {
 					c.Events[1].Code = nil // the HALT stays where the CPU is parked
@@ -286,7 +296,8 @@ func TestC06Histories(t *testing.T) {
 		"non-trivial = at least one request accepted and one refused, or nesting depth >= 2; distinct by hash(history)"
 	rig := newLockRig()
 	instrs := [][]int{{0xFB}, {0xFB}, {0xF3}, {0xED, 0x45}, {0xED, 0x4D}, {0xED, 0x46}, {0xED, 0x56}, {0xED, 0x5E}, {0x76},
-		{0xED, 0x57}, {0xED, 0x5F}, {0xF5}, {0xF1}, {0x00}, {0x3C}, {0xED, 0x47}, {0xFB}, {0xED, 0x4D}}
+		{0xED, 0x57}, {0xED, 0x5F}, {0xF5}, {0xF1}, {0x00}, {0x3C}, {0xED, 0x47}, {0xFB}, {0xED, 0x4D},
+		{0xED, 0x5D}, {0xED, 0x55}, {0xED, 0x7D}} // undocumented mirrors of RETN: a tree that does not support them ends the history without verdict
 	rapid.Check(t, func(t *rapid.T) {
 		d := drawStep(t, false)
 		c := c06Case{St: d.st, MemSeed: d.memSeed, Fill: d.fill}
@@ -300,7 +311,8 @@ func TestC06Histories(t *testing.T) {
 				k := rapid.IntRange(0, 14).Draw(t, "im0shape")
 				switch {
 				case k >= 12:
-					return rapid.SampledFrom([][]int{{0xED, 0x4A}, {0xED, 0x52}, {0xDD, 0x09}, {0xFD, 0x23}, {0xCB, 0x07}, {0xED, 0x44}, {0xFD, 0x21, 0x34, 0x12}, {0x19}, {0x08}}).Draw(t, "im0prefixed")
+					return rapid.SampledFrom([][]int{{0xED, 0x4A}, {0xED, 0x52}, {0xDD, 0x09}, {0xFD, 0x23}, {0xCB, 0x07}, {0xED, 0x44}, {0xFD, 0x21, 0x34, 0x12}, {0x19}, {0x08},
+						{0x86}, {0x34}, {0x77}, {0xDD, 0x7E, 0x01}, {0xF5}, {0xF1}, {0x36, 0x99}}).Draw(t, "im0prefixed")
 				case k < 8:
 					return []int{0xC7 | k<<3}
 				case k == 8:
